@@ -478,7 +478,8 @@ def random_db(rng, **opts):
         fn = None
         # aldy only merges FUNCTIONAL catalogued multi-base substitutions into one observation
         if rng.random() < pf or (kind == "msub" and not o["neutral_mnp"]):
-            fn = rng.choice(["splicing defect", f"{rng.choice('ARNDCQEGHILKMFPSTWYV')}{rng.randint(1, 99)}{rng.choice('ARNDCQEGHILKMFPSTWYV')}", "frameshift"])
+            fn = rng.choice(["splicing defect", f"{rng.choice('ARNDCQEGHILKMFPSTWYV')}{rng.randint(1, 99)}{rng.choice('ARNDCQEGHILKMFPSTWYV')}", "frameshift"]
+                            + ([""] if o["hostile"] else []))  # an effect column that is present but empty still marks a function-altering variant (shipped: RYR1 c.14364+1G>T)
         rsid = f"rs{rng.randint(1000, 99999999)}" if rng.random() < 0.6 else "-"
         pool.append([pos, op, rsid, fn])
         taken.append((lo, hi))
